@@ -40,10 +40,16 @@ def on_call(interp, name, f, args, kwargs):
     cond = T('rxmatch', rt, MODES[name], subject)
     interp.effect('call', name, (rt, subject))
     if isinstance(subject, K):
-        m = getattr(re.compile(rx.pattern, rx.flags), MODES[name])(subject.v)
-        matched = m is not None
-    else:
-        matched = interp.truth(cond)
+        try:
+            m = getattr(re.compile(rx.pattern, rx.flags),
+                        MODES[name])(subject.v)
+        except TypeError:
+            from .absint import AbsRaise
+            raise AbsRaise(T('exc', 'TypeError', 'expected string'))
+        if m is None:
+            return K(None)
+        return _const_match(m, args[1])
+    matched = interp.truth(cond)
     if not matched:
         return K(None)
     ngroups = re.compile(rx.pattern, rx.flags).groups
@@ -90,6 +96,40 @@ def on_call(interp, name, f, args, kwargs):
     mo.fields['span'] = AbsFunc('span', pos('span'))
     mo.fields['string'] = args[1]
     mo.fields['__getitem__'] = AbsFunc('__getitem__', group)
+    return mo
+
+
+def _const_match(m, subject):
+    """Match object of a constant pattern on a constant subject: every
+    accessor answers with a constant."""
+    from .absint import AbsRaise
+    mo = Obj(None, {'__truth__': True}, label='match')
+
+    def wrap(meth):
+        def f(interp2, a, kw):
+            if not all(isinstance(x, K) for x in a):
+                interp2.inexact('match.%s() with a non-constant argument'
+                                % meth)
+                return T('call', 'match.' + meth,
+                         *[interp2.termify(x) for x in a])
+            try:
+                r = getattr(m, meth)(*[x.v for x in a],
+                                     **{k: v.v for k, v in kw.items()})
+            except IndexError:
+                raise AbsRaise(T('exc', 'IndexError', 'no such group'))
+            if isinstance(r, dict):
+                from .values import DictV
+                return DictV([(K(k), K(v)) for k, v in r.items()])
+            return K(r)
+        return f
+    for meth in ('group', 'groups', 'start', 'end', 'span', 'groupdict',
+                 '__getitem__', 'expand'):
+        mo.fields[meth] = AbsFunc(meth, wrap(meth))
+    mo.fields['string'] = subject
+    mo.fields['lastindex'] = K(m.lastindex)
+    mo.fields['lastgroup'] = K(m.lastgroup)
+    mo.fields['re'] = K(None)
+    mo.fields['__closed__'] = True
     return mo
 
 
